@@ -141,7 +141,7 @@ Server::Client::ICallback* ListenerCb::onAccepted(Server::Client& client, uint32
   C.clientSlot[slot] = c;
   /* a greeting written, or flow control applied, from inside onAccepted: the client's own poll registration changes before the callback returns */
   if (policy == 4) { probe("write_in_onAccepted"); execOp(C_WRITE, slot, 1 + e->port * 977 % 1900, e); }
-  if (policy == 5) { probe("suspend_in_onAccepted"); execOp(C_SUSPEND, slot, 0, e); }
+  if (policy == 5 && !C.scriptDone) { probe("suspend_in_onAccepted"); execOp(C_SUSPEND, slot, 0, e); }
   runPending(e);
   return &c->ccb;
 }
@@ -153,7 +153,7 @@ Server::Client::ICallback* EstabCb::onConnected(Server::Client& client) {
   if (!c) { runPending(e); return 0; }
   c->handle = &client; c->fd = (int)client.getSocket().getFileDescriptor(); C.clientSlot[slot] = c;
   if (e->connectAction == 1) { probe("write_in_onConnected"); execOp(C_WRITE, slot, 1 + e->id * 977 % 1900, e); }
-  if (e->connectAction == 2) { probe("suspend_in_onConnected"); execOp(C_SUSPEND, slot, 0, e); }
+  if (e->connectAction == 2 && !C.scriptDone) { probe("suspend_in_onConnected"); execOp(C_SUSPEND, slot, 0, e); }
   runPending(e);
   return &c->ccb;
 }
@@ -208,6 +208,7 @@ static bool allSettled() {
   }
   return C.peersDone >= C.peersTotal;
 }
+static int burstDepth = 0;
 static void execOp(int code, int slot, int64_t arg, Ent* self) {
   if (code == 0) {   // driver tick: next script operation
     if (C.stopped) return;
@@ -215,6 +216,7 @@ static void execOp(int code, int slot, int64_t arg, Ent* self) {
     const RunSpec& s = *C.spec;
     while (C.pos < s.plan.size() && s.plan[C.pos].task != 0) C.pos++;
     if (C.pos >= s.plan.size()) {
+      if (burstDepth > 0) return;   /* a burst tick never ends the script: the operation that started the burst has not been executed yet (it would run after the tail's clean-up) */
       if (!C.scriptDone) { C.scriptDone = true; C.stopPeers = true; requestTail(); logEvent("script_done"); { Host h; C.pendOwn->clear(); C.pendAny->clear(); } /* nothing new happens in the quiet tail */ for (int i = 0; i < 6; ++i) if (C.clientSlot[i] && C.clientSlot[i]->suspended) { Ent* q = C.clientSlot[i]; if (((Server::Client*)q->handle)->getSendBufferSize() > 0 && simnet::peerClosed(q->fd)) { probe("tail_suspended_client_with_backlog_and_dead_peer"); continue; } /* stays suspended: the pending data cannot be sent any more, and that failure alone must bring onClosed */ q->suspended = false; ((Server::Client*)q->handle)->resume(); } }
       C.tailTicks++;
       if (allSettled() && !C.finishing) { C.finishing = true; logEvent("settled"); { NoPreempt np; C.interruptsInvoked++; } C.srv->interrupt(); { NoPreempt np; C.interruptsCompleted++; C.lastInterruptDoneSeq = ++C.seq; } }
@@ -222,7 +224,7 @@ static void execOp(int code, int slot, int64_t arg, Ent* self) {
     }
     const Op& op = s.plan[C.pos++];
     // burst: several script operations in one driver activation, so that several sockets become ready within one poll round
-    int burst = (int)simdrv::knob(s, "burst", 1); if (self == C.driver && burst > 1 && (op.a[2] % 2) == 0) { static int depth = 0; if (depth == 0) { depth = 1; for (int b = 1; b < burst && C.pos < s.plan.size() && !C.stopped && C.driver == self && !self->removed; ++b) { execOp(0, 0, 0, self); } depth = 0; } }
+    int burst = (int)simdrv::knob(s, "burst", 1); if (self == C.driver && burst > 1 && (op.a[2] % 2) == 0) { if (burstDepth == 0) { burstDepth = 1; for (int b = 1; b < burst && C.pos < s.plan.size() && !C.stopped && C.driver == self && !self->removed; ++b) { execOp(0, 0, 0, self); } burstDepth = 0; } }
     int where = (int)(op.a[3] % 4);
     bool deferrable = op.code == T_REMOVE || op.code == C_REMOVE || op.code == E_REMOVE || op.code == L_REMOVE;
     if (deferrable && where == 1) { Host h; C.pendOwn->push_back(Pending{op.code, (int)op.a[0], op.a[1]}); return; }
@@ -250,7 +252,7 @@ static void execOp(int code, int slot, int64_t arg, Ent* self) {
     for (int rep = 0; rep < reps; ++rep) {
       int sl = freeClientSlot(); if (sl < 0) break; Ent* e = newEnt(K_CLIENT, sl); if (!e) break; e->far = new Socket; Server::Client* c = C.srv->pair(e->ccb, *e->far); if (!c) { e->alive = false; e->removed = true; break; }
       e->handle = c; e->fd = (int)c->getSocket().getFileDescriptor(); C.clientSlot[sl] = e;
-      if (arg % 3 == 0 || reps > 1) { unsigned char b[64]; memset(b, 7, sizeof b); fcntl((int)e->far->getFileDescriptor(), F_SETFL, O_NONBLOCK); (void)!send((int)e->far->getFileDescriptor(), b, 1 + arg % 60, 0); }   // far end sends something
+      if (arg % 3 == 0 || reps > 1) { unsigned char b[64]; memset(b, 7, sizeof b); fcntl((int)e->far->getFileDescriptor(), F_SETFL, O_NONBLOCK); (void)!send((int)e->far->getFileDescriptor(), b, 1 + arg % 60, MSG_NOSIGNAL); }   // far end sends something
       if (arg % 5 == 1 && reps == 1) { e->far->close(); probe("pair_far_end_closed"); }
     }
     if (reps > 1) probe("pair_burst");
@@ -303,7 +305,7 @@ static void remoteTask(void* a) {
     case R_STALL: { static const int ms[] = {1, 4, 15, 80}; usleep(ms[op.a[1] % 4] * 1000); break; }
     case R_CONNECT: {
       int fd = socket(AF_INET, SOCK_STREAM, 0); struct sockaddr_in sin; memset(&sin, 0, sizeof sin); sin.sin_family = AF_INET; sin.sin_port = htons((uint16_t)(5000 + op.a[0] % 2)); sin.sin_addr.s_addr = htonl(0x7f000001);
-      if (connect(fd, (struct sockaddr*)&sin, sizeof sin) == 0) { probe("remote_connected"); size_t n = op.a[1] % 700; memset(buf, 9, sizeof buf); if (n) { fcntl(fd, F_SETFL, O_NONBLOCK); (void)!send(fd, buf, n, 0); } if (op.a[2] % 3 == 0) usleep(2000); if (op.a[2] % 2 == 0) { fcntl(fd, F_SETFL, O_NONBLOCK); (void)!recv(fd, buf, sizeof buf, 0); }
+      if (connect(fd, (struct sockaddr*)&sin, sizeof sin) == 0) { probe("remote_connected"); size_t n = op.a[1] % 700; memset(buf, 9, sizeof buf); if (n) { fcntl(fd, F_SETFL, O_NONBLOCK); (void)!send(fd, buf, n, MSG_NOSIGNAL); } if (op.a[2] % 3 == 0) usleep(2000); if (op.a[2] % 2 == 0) { fcntl(fd, F_SETFL, O_NONBLOCK); (void)!recv(fd, buf, sizeof buf, 0); }
         if (op.a[2] % 5 == 4 && nlinger < 4) { fcntl(fd, F_SETFL, O_NONBLOCK); linger[nlinger++] = fd; probe("remote_stays_connected"); break; } }
       close(fd); break; }
     case R_LISTEN: {
@@ -311,7 +313,7 @@ static void remoteTask(void* a) {
       if (bind(ls, (struct sockaddr*)&sin, sizeof sin) == 0 && listen(ls, 4) == 0) {
         fcntl(ls, F_SETFL, O_NONBLOCK);
         static const int ms[] = {5, 30, 200, 1500}; int64_t until = nowNs() + (int64_t)ms[op.a[1] % 4] * 1000000LL;
-        while (nowNs() < until && !C.stopPeers) { int fd = accept(ls, 0, 0); if (fd >= 0) { probe("remote_accepted"); memset(buf, 5, sizeof buf); fcntl(fd, F_SETFL, O_NONBLOCK); (void)!send(fd, buf, op.a[2] % 300, 0); if (op.a[2] % 2) usleep(1000); close(fd); } else usleep(1000); }
+        while (nowNs() < until && !C.stopPeers) { int fd = accept(ls, 0, 0); if (fd >= 0) { probe("remote_accepted"); memset(buf, 5, sizeof buf); fcntl(fd, F_SETFL, O_NONBLOCK); (void)!send(fd, buf, op.a[2] % 300, MSG_NOSIGNAL); if (op.a[2] % 2) usleep(1000); close(fd); } else usleep(1000); }
       }
       close(ls); break; }
     }
@@ -434,7 +436,7 @@ static Result execute(const RunSpec& s, bool keepLog) {
   cfg.step_budget = 4000000; cfg.tail_budget_min = 8000000; cfg.tail_factor = 10; cfg.keep_log = keepLog;
   setProcessorCount((int)simdrv::knob(s, "nproc", 2));
   static std::vector<Pending> pOwn, pAny; pOwn.clear(); pAny.clear();
-  memset((void*)&C, 0, sizeof C); C.spec = &s; C.pendOwn = &pOwn; C.pendAny = &pAny;
+  memset((void*)&C, 0, sizeof C); burstDepth = 0; C.spec = &s; C.pendOwn = &pOwn; C.pendAny = &pAny;
   Future<void>::Private::_threadPool = 0; Future<void>::Private::_threadPoolLock = 0;
   new (&Error::Private::userErrorStrings) Map<uint32, Error::Private::Str>();   // drop dangling arena pointers of an abandoned run
   Hooks h; h.main_fn = mainTask; h.quiescence = quiescence; h.finalize = finalize;
